@@ -1866,6 +1866,29 @@ fn gen_cases(ctx: &mut Ctx) -> Vec<Case> {
         cases.push(Case::L1Enc { s: format!("ab{}", c) });
     }
 
+    // --- Latin-1 byte strings that happen to be well-formed UTF-8 (a decoder that tries UTF-8 first is wrong exactly there;
+    //     random bytes above 0x7F almost never are): every lead byte with continuation bytes, random Unicode text read as Latin-1 ---
+    for lead in 0xC2..=0xF4u8 {
+        let n = if lead < 0xE0 { 1 } else if lead < 0xF0 { 2 } else { 3 };
+        let conts: Vec<u8> = if quick { vec![0x80 + (lead & 0x3F)] } else { (0x80..=0xBFu8).collect() };
+        for c in conts {
+            let mut b = vec![lead];
+            // second byte restricted so that the sequence is well-formed (E0: A0..BF, ED: 80..9F, F0: 90..BF, F4: 80..8F)
+            let c2 = match lead { 0xE0 => c | 0x20, 0xED => c & 0x9F, 0xF0 => if c < 0x90 { c + 0x10 } else { c }, 0xF4 => c & 0x8F, _ => c };
+            b.push(c2);
+            for k in 1..n { b.push(0x80 + ((c as usize * 7 + k * 13) % 64) as u8); }
+            debug_assert!(std::str::from_utf8(&b).is_ok());
+            cases.push(Case::L1 { bytes: b.clone() });
+            let mut e = b"x ".to_vec(); e.extend_from_slice(&b); e.extend_from_slice(b" y"); e.extend_from_slice(&b);
+            cases.push(Case::L1 { bytes: e });
+        }
+    }
+    for _ in 0..ctx.n(60, 600) {
+        let n = gen_len(&mut rng);
+        let s = gen_unicode(&mut rng, n.min(4000), true);
+        cases.push(Case::L1 { bytes: s.into_bytes() });
+    }
+
     // --- random Latin-1 byte strings and arbitrary strings ---
     for _ in 0..ctx.n(150, 1500) {
         let n = gen_len(&mut rng);
